@@ -12,7 +12,8 @@ IMPORTS = ("From Coq Require Import ZArith List.\n"
 CASE_T = "C01.Corr.case"
 PROPS = ["C01/Props.v"]
 CLAUSE = {1: "out-of-domain-readable", 2: "other-attribute-changed", 3: "failed-assignment-had-effect",
-          4: "not-the-documented-conversion", 5: "foreign-exception", 6: "dynamic-range-out-of-bounds"}
+          4: "not-the-documented-conversion", 5: "foreign-exception", 6: "dynamic-range-out-of-bounds",
+          7: "dynamic-range-reads-outside-declared-range"}
 RELATION = "C01.Corr.corr_codes (Model.step = setattr / trait_set / constructor on every step)"
 HOW = {"Attr": "Attr", "TraitSet": "TraitSet", "Ctor": "Ctor"}
 
@@ -42,6 +43,17 @@ def _first(case, step):
 def key_fn(case, ob, code):
     step, clause = code // 100, code % 100
     how, d, v = _first(case, step)
+    if clause == 7:
+        # F23: which endpoint the getter clamped onto
+        dyn = [(t[0], t[1]) for t in case["traits"] if t[1][0] == "DRangeDyn"]
+        after = dict((n, w) for n, w in ob["steps"][step]["after"])
+        for n, dd in dyn:
+            r, lo_, hi_ = after.get(n + 2000), after.get(dd[1]), after.get(dd[2])
+            if r and lo_ and r == lo_ and dd[3] & 1:
+                return "out-of-domain-readable/dynamic-range-getter-clamps-onto-excluded-low-endpoint"     # F23
+            if r and hi_ and r == hi_ and dd[3] & 2:
+                return "out-of-domain-readable/dynamic-range-getter-clamps-onto-excluded-high-endpoint"    # F23
+        return "dynamic-range-reads-outside-declared-range/%s" % pv.shape(d)
     if any(v2 == ["PUndefined"] for _, v2 in case["ops"][step][1]):
         return "out-of-domain-readable/Undefined-sentinel-bypasses-validation"                # F22
     if d[0] == "DCompound" and any(a[0] in ("DMap", "DPrefixMap") for a in d[1]):
